@@ -548,6 +548,17 @@ def CompIn.loop (m : CompIn) : Nat → List Rat → Nat → Except Err (List Rat
     | some (xn, sh) =>
       if relChange2 xn xg > m.tol then m.loop fuel xn (it + 1) else .ok (xn, xg, sh, it + 1)
 
+/-- some iteration of the loop (within the cap) shifts its solution.  A shift leaves an entry that is exactly 0;
+from there a factor can decay geometrically: in binary64 it reaches exactly 0.0 and the loop stops, in exact
+arithmetic it never does.  The float and the exact iteration are then legitimately different (driver: such lines are
+tagged `path=shift-history` and not compared; the oracle on the real streams still applies). -/
+def CompIn.anyShift (m : CompIn) : Nat → List Rat → Bool
+  | 0, _ => false
+  | fuel + 1, xg =>
+    match m.step xg with
+    | none => false
+    | some (xn, sh) => sh || (if relChange2 xn xg > m.tol then m.anyShift fuel xn else false)
+
 def compositionBalance (m : CompIn) : Except Err CompOut :=
   if m.vin.length ≠ m.idx.length then .error .shape
   else match m.loop m.fuel (List.replicate m.idx.length 1) 0 with
